@@ -55,7 +55,7 @@ def exc_sig(e):
 # ---------------------------------------------------------------------------------------------
 
 BASES = ["1d_int", "1d_float", "1d_gapped", "1d_adaptive", "2d", "2d_adaptive", "2d_gap_axis1", "3d", "collection",
-         "1d_adaptive_empty", "2d_adaptive_empty", "2d_int_nokeep", "1d_int_nokeep"]
+         "1d_adaptive_empty", "2d_adaptive_empty", "2d_int_nokeep", "1d_int_nokeep", "collection_adaptive"]
 
 
 def make_base(name):
@@ -94,6 +94,14 @@ def make_base(name):
         from physt.histogram1d import Histogram1D
 
         return Histogram1D(StaticBinning(np.array([0.0, 1.0, 2.0, 4.0])), frequencies=np.array([2, 0, 1]), keep_missed=False)
+    if name == "collection_adaptive":
+        # members over one adaptive binning: values outside the present bins make it grow
+        from physt.binnings import FixedWidthBinning
+
+        col = HistogramCollection(binning=FixedWidthBinning(bin_width=1.0, bin_count=3, bin_times_min=0, adaptive=True), name="acol")
+        col.create("m0", np.array([0.5, 1.5]))
+        col.create("m1", np.array([2.5, 2.5, 0.5]))
+        return col
     if name == "collection":
         edges = np.array([0.0, 1.0, 2.0, 3.0])
         a = h1(np.array([0.5, 1.5]), edges.copy(), name="m0")
@@ -133,7 +141,7 @@ def first_axis_point(o, where="inside"):
 
 VALID = ["fill_inside", "fill_above", "fill_below", "fill_edge", "fill_weighted", "fill_heavy", "fill_n", "fill_n_weighted", "iadd_copy", "isub_empty", "isub_half",
          "imul2", "idiv2", "merge2", "normalize", "dtype_float", "iadd_float_copy", "imul_half"]
-VALID_COL = ["col_add", "col_member_fill", "col_create"]
+VALID_COL = ["col_add", "col_member_fill", "col_create", "col_create_beyond", "col_member_fill_beyond"]
 
 
 def valid_ops(o):
@@ -151,6 +159,10 @@ def apply_valid(o, name, ref=None):
             o.histograms[0].fill(0.5)
         elif name == "col_create":
             o.create("new", np.array([0.5, 2.5]))
+        elif name == "col_create_beyond":
+            o.create("far", np.array([0.5, 5.5]))  # overflow for fixed bins, growth for adaptive ones
+        elif name == "col_member_fill_beyond":
+            o.histograms[-1].fill(7.5)
         return
     src = ref if ref is not None else o
 
@@ -537,9 +549,9 @@ def run_unit(unit, ctx):
     o0 = make_base(base)
     vops = valid_ops(o0)
     first = unit["first"]
-    second = [v for v in vops if v in ("fill_above", "fill_weighted", "fill_heavy", "fill_n_weighted", "iadd_copy", "iadd_float_copy", "idiv2", "merge2", "col_add", "col_member_fill")]
+    second = [v for v in vops if v in ("fill_above", "fill_weighted", "fill_heavy", "fill_n_weighted", "iadd_copy", "iadd_float_copy", "idiv2", "merge2", "col_add", "col_member_fill", "col_create_beyond", "col_member_fill_beyond")]
     prefixes = [[]] if first is None else [[first]] + [[first, v] for v in second]
-    follows = [v for v in vops if v in ("fill_inside", "fill_above", "fill_n_weighted", "iadd_copy", "imul2", "merge2", "normalize", "col_add", "col_member_fill", "col_create")]
+    follows = [v for v in vops if v in ("fill_inside", "fill_above", "fill_n_weighted", "iadd_copy", "imul2", "merge2", "normalize", "col_add", "col_member_fill", "col_create", "col_create_beyond")]
     k = 0
     for prefix in prefixes:
         # the fault menu depends on the state (e.g. fractional contents): compute it on the state reached
